@@ -344,6 +344,84 @@ def run(chk):
                 chk.violation(r_bs, key, "%s narrows `%s` (%s) to the record's box but does not own it: the caller's current input box stays narrowed for every keyword that follows in the section" % (f["n"], obj["n"], obj.get("t")), f["file"], c["l"])
             break
 
+    # ---- C12.axis: I/J/K bookkeeping of the input box
+    r_ax = chk.rule("C12.axis", "in Box.cpp every declaration, default look-up, range assertion and extent/offset assignment stays on one axis: i* with NX, item I* and component [0]; j* with NY, J*, [1]; k* with NZ, K*, [2]; init() receives its arguments in the order of its parameters", floor=20)
+    bx = chk.facts(["opm/input/eclipse/EclipseState/Grid/Box.cpp"])
+    AX = {"i": "I", "j": "J", "k": "K", "X": "I", "Y": "J", "Z": "K", 0: "I", 1: "J", 2: "K"}
+
+    def axes(e, skip_idx_of=None):
+        out = []
+        for x in walk(e):
+            if x["k"] == "Ref" and x.get("d") in ("Var", "Parm") and re.match(r"^[ijk][12]?$", x["n"]):
+                out.append((AX[x["n"][0]], x["n"]))
+            m_, o_ = meth(x)
+            if m_ in ("getNX", "getNY", "getNZ"):
+                out.append((AX[m_[-1]], m_ + "()"))
+            if x["k"] in ("MCall", "Call") and x.get("targs"):
+                for t_ in x["targs"]:
+                    mm = re.search(r"::([IJK])[12]$", t_)
+                    if mm:
+                        out.append((mm.group(1), "item " + mm.group(1) + t_[-1]))
+            sub = None
+            if x["k"] == "Idx":
+                sub = x["c"]
+            elif x["k"] == "OpCall" and x.get("op") == "[]" and len(x.get("a", [])) == 2:
+                sub = x["a"]
+            if sub and strip(sub[0])["k"] == "Mem" and strip(sub[0])["n"] in ("m_dims", "m_offset") and strip(sub[1])["k"] == "Int" and strip(sub[1])["v"] in (0, 1, 2):
+                out.append((AX[strip(sub[1])["v"]], "%s[%d]" % (strip(sub[0])["n"], strip(sub[1])["v"])))
+        return out
+    n_ax = 0
+    for f in bx.fns:
+        if f.get("cls") != "Opm::Box" or not f.get("body") or f["n"] not in ("update", "reset", "init", "Box"):
+            continue
+        stmts = []
+
+        def leaves(n):
+            if n["k"] == "Block":
+                for c_ in n["c"]:
+                    leaves(c_)
+            elif n["k"] == "If":
+                stmts.append(n["cond"])
+                leaves(n["then"])
+                if n.get("else"):
+                    leaves(n["else"])
+            elif n["k"] == "Decl":
+                for v in n["vars"]:
+                    stmts.append(dict(k="DeclVar", l=n["l"], var=v))
+            else:
+                stmts.append(n)
+        leaves(f["body"])
+        for st in stmts:
+            if st["k"] == "DeclVar":
+                v = st["var"]
+                got = ([(AX[v["n"][0]], v["n"])] if re.match(r"^[ijk][12]?$", v["n"]) else []) + (axes(v["init"]) if v.get("init") is not None else [])
+                text = "%s = %s" % (v["n"], show(v["init"])[:60] if v.get("init") is not None else "")
+            elif st["k"] in ("MCall", "Call") and (meth(st)[0] == "init" or (st.get("fn") or "").endswith("Box::init")) and len(st.get("a", [])) == 6:
+                # argument i must be on the axis of parameter i
+                want = ["I", "I", "J", "J", "K", "K"]
+                for pos, (a_, w_) in enumerate(zip(st["a"], want)):
+                    ga = axes(a_)
+                    n_ax += 1
+                    key = "%s:init-arg%d@%s" % (f["n"], pos, st["l"] - f["l"])
+                    chk.instance(r_ax, key, sample=dict(function=f["q"], argument=show(a_)[:40], axis_expected=w_, mentions=[t for _, t in ga]))
+                    bad = [t for ax_, t in ga if ax_ != w_]
+                    if bad:
+                        chk.violation(r_ax, key, "%s passes `%s` as argument %d of init(i1, i2, j1, j2, k1, k2): that position is the %s axis" % (f["q"], show(a_)[:40], pos + 1, w_), f["file"], st["l"])
+                continue
+            else:
+                got = axes(st)
+                text = show(st)[:80]
+            if not got:
+                continue
+            n_ax += 1
+            kinds = sorted({a_ for a_, _ in got})
+            key = "%s@%s" % (f["n"], st["l"] - f["l"])
+            chk.instance(r_ax, key, sample=dict(function=f["q"], statement=text, axes=kinds))
+            if len(kinds) > 1:
+                chk.violation(r_ax, key, "%s: `%s` mixes the %s axes (%s): a box bound, extent or offset of one direction is computed from another direction's size or item" % (f["q"], text, "/".join(kinds), ", ".join(t for _, t in got)), f["file"], st["l"])
+    if n_ax < 20:
+        raise core.AnalysisBroken("C12.axis: only %d axis-typed statements found in Box.cpp" % n_ax)
+
     # ---- C12.operate: the OPERATE function table
     r_op = chk.rule("C12.operate", "every OPERATE function name is bound to the function of that name and each function returns the documented formula of R, X, alpha, beta (compared as a canonical expression tree, commutative operands sorted)", floor=28)
     ox = chk.facts(["opm/input/eclipse/EclipseState/Grid/Operate.cpp"])
